@@ -150,6 +150,9 @@ static inline FockPair fm_entry(Bitset ket, long pos)
 #define LVBITS(x) (*(const unsigned long *)&(x))   /* bit pattern of a double lvalue (loop invariants must not call functions) */
 unsigned long g_bs;          /* ghost: the block size (calls are not allowed in loop invariants) */
 //@maythrow StatesClassification_getBlockSize StatesClassification_getFockState StatesClassification_getInnerState
+/* twins for the other spelling of an increment (`++it` for `it++` and vice versa): same effect.  X_inc yields the iterator after the step
+ * (exact); X_postinc made from X_inc is void, so a use of its value does not compile (UNDECIDED) instead of being modelled wrongly */
+#define FockMapIt_inc(it_) (FockMapIt_postinc(it_), (it_))      /* pre-increment: the iterator itself, after the step */
 //@function Pomerol::HamiltonianPart::prepare() as HamiltonianPart_prepare
 //@contract
 __CPROVER_requires(__CPROVER_is_fresh(self, sizeof(*self)))
